@@ -20,9 +20,10 @@ Top5  == <<"address", "port", "threads", "timeout", "websocket">>
 BaseVal == <<Q("127.0.0.1"), "8080", "8", "5", Q("localhost:1234"), Q("@"), Q("forbidden"), Q("debug"),
              "false", Q("humphrey.log"), "128M", "60">>
 Sizes == { n \o u : n \in {"0", "1", "1023", "128"}, u \in {"", "K", "M", "G"} } \cup {"8589934591G"}
-AltVals == << {Q("0.0.0.0"), Q("::1"), Q("my host {x}")}, {"0", "1", "80", "443", "65535"}, {"1", "32", "1000"},
-              {"0", "1", "3600"}, {Q("ws.example.com:80")}, {}, {Q("block")}, {Q("error"), Q("warn"), Q("info")},
-              {"true"}, {Q("/var/log/h u.log")}, Sizes, {"0", "1", "86400"} >>
+\* strings with runs of blanks, a blank next to a quotation mark and a tab between the quotation marks: byte-exact
+AltVals == << {Q("0.0.0.0"), Q("::1"), Q("my host {x}"), Q(" my   host ")}, {"0", "1", "80", "443", "65535"}, {"1", "32", "1000"},
+              {"0", "1", "3600"}, {Q("ws.example.com:80"), Q("ws  host:80")}, {}, {Q("block")}, {Q("error"), Q("warn"), Q("info")},
+              {"true"}, {Q("/var/log/h u.log"), Q("/var/log/h  u.log"), Q(" \tlogs\t \tx.log ")}, Sizes, {"0", "1", "86400"} >>
 
 ScalarRoot(P, val) ==
   LET T[i \in 0..5] == IF i = 0 THEN <<>> ELSE T[i - 1] \o (IF i \in P THEN <<K(Top5[i], val[i])>> ELSE <<>>)
@@ -54,10 +55,10 @@ RKind(i) ==
     [] i = 3 -> <<K("proxy", Q("127.0.0.1:8000"))>>
     [] i = 4 -> <<K("proxy", Q("127.0.0.1:8080,127.0.0.1:8000")), K("load_balancer_mode", Q("round-robin"))>>
     [] i = 5 -> <<K("load_balancer_mode", Q("random")), K("proxy", Q("b:2,c:3,a:1"))>>
-    [] i = 6 -> <<K("redirect", Q("http://localhost/"))>>
+    [] i = 6 -> <<K("redirect", Q("http://localhost/a  b"))>>
     [] i = 7 -> <<K("websocket", Q("localhost:1234"))>>
-    [] i = 8 -> <<K("file", Q("/srv/app.html")), K("websocket", Q("localhost:9999"))>>
-    [] i = 9 -> <<K("colour", Q("blue")), K("directory", Q("/srv/my files")), K("load_balancer_mode", Q("random"))>>
+    [] i = 8 -> <<K("file", Q(" /srv/my  app.html ")), K("websocket", Q("localhost:9999"))>>
+    [] i = 9 -> <<K("colour", Q("blue")), K("directory", Q("/srv/my\tfiles   x")), K("load_balancer_mode", Q("random"))>>
 \* pattern names are chosen so that file order is neither the ascending nor the descending order of the names
 \* (routes of the default host: q c x, of a host: d w k; patterns of one route: /w/* /b /t): a loader that sorts is noticed
 RTag(h, j) == IF h = 0 THEN <<"q", "c", "x">>[j] ELSE <<"d", "w", "k">>[j]
@@ -66,7 +67,7 @@ Pats(h, j, a) == [x \in 1..a |-> "/h" \o ToString(h) \o RTag(h, j) \o PSuf[x]]
 MkRoutes(h, shapes) == [j \in 1..Len(shapes) |-> R(Pats(h, j, shapes[j][2]), RKind(shapes[j][1]))]
 Shapes13 == { <<k, 1>> : k \in 1..9 } \cup { <<2, 2>>, <<5, 3>>, <<6, 2>>, <<7, 2>> }
 Shapes4  == { <<2, 1>>, <<4, 1>>, <<7, 2>>, <<1, 1>> }
-HostPat  == <<"localhost", "*.example.com", "127.0.0.1", "*">>
+HostPat  == <<"localhost", "*.my  site.com", "127.0.0.1", "*">>
 MkHosts(hs) == [h \in 1..Len(hs) |-> H(HostPat[h], MkRoutes(h, hs[h]))]
 RECURSIVE Alternate(_, _)
 Alternate(a, b) == IF a = <<>> THEN b ELSE IF b = <<>> THEN a ELSE <<Head(a), Head(b)>> \o Alternate(Tail(a), Tail(b))
@@ -222,5 +223,6 @@ ASSUME /\ NumStr("128M") = "134217728" /\ NumStr("1023G") = "1098437885952" /\ N
        /\ TokKind("12x") = "bad" /\ TokKind("1.5") = "bad" /\ TokKind("\"a") = "bad" /\ TokKind("\"") = "bad"
        /\ TokKind("\"\"") = "str" /\ TokKind("true") = "bool" /\ TokKind("128" \o NA) = "bad" /\ TokKind("K") = "bad"
        /\ IsNatUpTo("65535", MaxU16) /\ ~IsNatUpTo("65536", MaxU16) /\ ~IsNatUpTo("-1", MaxU16) /\ IsNatUpTo("64K", MaxU64)
+       /\ Words("  a \t b  \"c  d\" ") = <<"a", "b", "\"c", "d\"">> /\ StrBody(Trim("  \" x  y\t \"  ")) = " x  y\t "
        /\ Split("a,b,,c", ",") = <<"a", "b", "", "c">> /\ Trim(" \t x y \t") = "x y" /\ Subst("\"@\"", "F1") = "\"F1\""
 =============================================================================
